@@ -81,6 +81,13 @@ CHECKS["C13"] = dict(
     note="Trusted: SHA-1 collision resistance; 'different kernels' decided on generated source text with hashes normalised.",
     design="5/C13",
 )
+CHECKS["C03"] = dict(
+    category="exploration",
+    technique="enumeration/sampling of local-numbering pairs of two cells sharing a facet x Hypothesis-generated dS forms; convention-free metamorphic oracle (coinciding permutation codes discovered through a probe kernel; invariance against the reference value of the base numbering)",
+    text="For generated interior-facet functionals and linear forms on triangles, quadrilaterals, tetrahedra and hexahedra, all 36 triangle and 64 quadrilateral numbering pairs (tetrahedron/hexahedron pairs sampled in the quick tier, 576 tetrahedron pairs in the thorough tier) are fed to the kernel with physically identical data; a probe kernel identifies the permutation codes that make both sides' quadrature points coincide, at least one must exist, and for those codes the result must equal the base numbering's reference value. Kernels flagged needs_facet_permutations=false must not depend on the codes. Forms are sampled.",
+    note="Trusted: code 0 = identity (only convention used), reference evaluator for the base numbering, Lagrange/DG nodal sampling of polynomial fields.",
+    design="5/C03",
+)
 PENDING = {}
 
 def main():
